@@ -115,10 +115,13 @@ _REG_ASSUME = ['required and provided interfaces come from disjoint DAG families
 PLANS['C04'] = dict(
     engine='registry', level='exploration', jobs=lambda tier: both(tier, (8, 400), (16, 10000)),
     minimums=lambda t: {'lookups': 10000, 'hits': 2000, 'lookups_2plus_candidates': 800,
-                        'lookups_candidates_differing_after_first_position': 100},
+                        'lookups_candidates_differing_after_first_position': 100,
+                        'winner_changed_by_hierarchy_change': 300},
     rule='Random registry chains (both flavours) populated with registrations of arity 0-3, names, None/interface/'
          'class-declaration keys, biased to ties; random lookups (interface, class and instance specifications) compared '
-         'with the lexicographic-position reference model; evaluations = oracle comparisons.  Non-trivial: a lookup with '
+         'with the lexicographic-position reference model; between lookups the hierarchy of the looked-up specifications '
+         'changes (class declarations, object declarations, re-basing of required interfaces) and the remembered keys are '
+         'asked again against the model over the current resolution orders; evaluations = oracle comparisons.  Non-trivial: a lookup with '
          '>= 2 applicable candidates; distinct = distinct (arity, candidate count, winning registry depth).',
     assumptions=_REG_ASSUME + ['among tied candidates with unrelated provided interfaces any minimal one is accepted'],
 )
